@@ -10,11 +10,15 @@ import (
 )
 
 func vDims() (nT, nK int) {
-	switch vrt.Choose("dims", 2) {
+	switch vrt.Choose("dims", 3) {
 	case 0:
 		nT, nK = 2, 3
-	default:
+	case 1:
 		nT, nK = 3, 2
+	default:
+		// a stack of one table / a compaction with one input: everything must hold there too
+		vrt.Tag("single-table")
+		return 1, 3
 	}
 	if vrt.Thorough() {
 		nT++
@@ -286,11 +290,14 @@ func vSymDims() (nT, maxRecs int) {
 	if vrt.Thorough() {
 		return 3, 2
 	}
-	switch vrt.Choose("dims", 2) {
+	switch vrt.Choose("dims", 3) {
 	case 0:
 		return 2, 2
+	case 1:
+		return 3, 1
 	}
-	return 3, 1
+	vrt.Tag("single-table")
+	return 1, 2
 }
 
 // H_C08_StackSym: as H_C08_Stack with symbolic keys, probe and bounds.
